@@ -60,6 +60,7 @@ def frame(variant):
     z = [10.0, 7.5, 3.0, 8.25, 1.5, 4.0, 6.5, 2.75]
     df = pd.DataFrame({"f": f, "g": g, "h": h, "k": k, "x": x, "z": z, "y": [0.1, 0.4, 0.2, 0.9, 0.5, 0.3, 0.8, 0.6]})
     df["o"] = pd.Categorical(df["f"], categories=["c", "a", "b"], ordered=True)
+    df["xb"] = [3e7 + v for v in (0.25, -1.5, 0.75, 2.0, -0.5, 1.25, -2.25, 0.0)]  # level huge compared with the spread
     if variant == "cat":
         df["f"] = pd.Categorical(df["f"], categories=["c", "b", "a"])
         df["g"] = pd.Categorical(df["g"], categories=["g2", "g1"], ordered=True)
@@ -159,7 +160,7 @@ def expand(unit):
     return unit
 
 
-def build(formula, df):
+def build(formula, df, na_action="drop"):
     from formulae import design_matrices
 
     lv = [30, 10, 20]  # noqa: F841  (looked up by the formula)
@@ -171,7 +172,7 @@ def build(formula, df):
     def up(s):  # a user function returning strings: a categorical call without C()
         return s.str.upper()
 
-    return design_matrices(formula, df)
+    return design_matrices(formula, df, na_action=na_action)
 
 
 def check_case(case, acc):
